@@ -1,6 +1,6 @@
 SPECIFICATION Spec
 CONSTANTS
-  Alphabet = {"A","B","C","D","E","F","G","H","I","J","K","L"}
+  Alphabet = {"A","B","C","D","E","F","G","H","I","J","K","L","M","N"}
   MaxLen = 3
   KeyMode = "exact"
 INVARIANTS CacheCoherent
